@@ -307,53 +307,48 @@ theorem loadPath_sound (w : World) (st : St) (p : PathE) (hs : StSound (InWorld 
       · exact importSubs_sound w _ _ st' h1
       · exact h1
 
-theorem getLoop_sound (w : World) (iface : ClassId) (r : Ref) (todo : List PathE) (st : St)
-    (hs : StSound (InWorld w) st) : StSound (InWorld w) (getLoop w iface r st todo).1 := by
-  induction todo generalizing st with
-  | nil => simpa [getLoop] using hs
-  | cons p rest ih =>
+theorem getLoop_sound (w : World) (iface : ClassId) (r : Ref) (n : Nat) (st : St) (searched : List Mod)
+    (hs : StSound (InWorld w) st) : StSound (InWorld w) (getLoop w iface r n st searched).1 := by
+  induction n generalizing st searched with
+  | zero => simpa [getLoop] using hs
+  | succ n ih =>
     simp only [getLoop]
     split
     · exact hs
-    · have h1 := loadPath_sound w st p hs
-      cases hl : loadPath w st p with
-      | mk st' e =>
-        rw [hl] at h1
-        cases e with
-        | some e => exact h1
-        | none => exact ih st' h1
+    · cases hn : nextPath (getBank iface st.banks) r searched with
+      | none => exact hs
+      | some p =>
+        simp only
+        have h1 := loadPath_sound w st p hs
+        cases hl : loadPath w st p with
+        | mk st' e =>
+          rw [hl] at h1
+          cases e with
+          | some e => exact h1
+          | none => exact ih st' _ h1
 
 /-- what `Service[reference]` may return: only a concrete class of the world carrying that reference -/
-theorem get_sound (w : World) (st : St) (iface : ClassId) (r : Ref) (order : List Mod)
+theorem get_sound (w : World) (st : St) (iface : ClassId) (r : Ref)
     (hs : StSound (InWorld w) st) :
-    StSound (InWorld w) (get w st iface r order).1 ∧
-      ∀ i, (get w st iface r order).2 = .ok i →
+    StSound (InWorld w) (get w st iface r).1 ∧
+      ∀ i, (get w st iface r).2 = .ok i →
         ∃ c, InWorld w c ∧ c.abstract = false ∧ r ∈ refs c ∧ c.id = i := by
   unfold get
-  cases h0 : lookupRef r (getBank iface st.banks).provider with
-  | some c =>
-    refine ⟨hs, ?_⟩
-    intro i hi
-    simp at hi; subst hi
-    exact getBank_sound hs iface r c (lookupRef_mem h0)
-  | none =>
-    simp only
-    generalize todoPaths (getBank iface st.banks) r order = todo
-    have h1 := getLoop_sound w iface r todo st hs
-    cases hl : getLoop w iface r st todo with
-    | mk st' e =>
-      rw [hl] at h1
-      cases e with
-      | some e => exact ⟨h1, by intro i hi; simp [finish] at hi⟩
-      | none =>
-        simp only [finish]
-        cases h2 : lookupRef r (getBank iface st'.banks).provider with
-        | none => exact ⟨h1, by intro i hi; simp at hi⟩
-        | some c =>
-          refine ⟨h1, ?_⟩
-          intro i hi
-          simp at hi; subst hi
-          exact getBank_sound h1 iface r c (lookupRef_mem h2)
+  have h1 := getLoop_sound w iface r (searchFuel w) st [] hs
+  cases hl : getLoop w iface r (searchFuel w) st [] with
+  | mk st' e =>
+    rw [hl] at h1
+    cases e with
+    | some e => exact ⟨h1, by intro i hi; simp [finish] at hi⟩
+    | none =>
+      simp only [finish]
+      cases h2 : lookupRef r (getBank iface st'.banks).provider with
+      | none => exact ⟨h1, by intro i hi; simp at hi⟩
+      | some c =>
+        refine ⟨h1, ?_⟩
+        intro i hi
+        simp at hi; subst hi
+        exact getBank_sound h1 iface r c (lookupRef_mem h2)
 
 /-! ### one bank, a list of registrations: order independence -/
 
@@ -859,24 +854,6 @@ theorem loadPath_clean {w : World} (hw : worldClean w = true) (st : St) (p : Pat
     · exact importSubs_clean hw _ _ st' h1
     · rfl
 
-theorem getLoop_clean {w : World} (hw : worldClean w = true) (iface : ClassId) (r : Ref) (todo : List PathE) (st : St)
-    (hs : StSound (InWorld w) st) (hp : ∀ p ∈ todo, p.explicit = true → importable w p.mod = true) :
-    (getLoop w iface r st todo).2 = none := by
-  induction todo generalizing st with
-  | nil => simp [getLoop]
-  | cons p rest ih =>
-    simp only [getLoop]
-    split
-    · rfl
-    · have h1 := loadPath_sound w st p hs
-      have h2 := loadPath_clean hw st p hs (hp p (by simp))
-      cases hl : loadPath w st p with
-      | mk st' e =>
-        rw [hl] at h1 h2
-        simp only at h2
-        subst h2
-        exact ih st' h1 (fun q hq => hp q (List.mem_cons_of_mem _ hq))
-
 theorem mem_arrange {paths : List PathE} {order : List Mod} {p : PathE} (h : p ∈ arrange paths order) : p ∈ paths := by
   simp only [arrange, List.mem_filterMap] at h
   obtain ⟨m, _, hf⟩ := h
@@ -893,13 +870,37 @@ theorem mem_refPaths {r : Ref} {base : List PathE} {p : PathE} (h : p ∈ refPat
     · simp at hb; subst hb; rfl
     · simp at hb
 
-/-- every explicit element of the search list is one of the bank's registered paths -/
+/-- (legacy search list) every explicit element of the search list is one of the bank's registered paths -/
 theorem mem_todoPaths {b : Bank} {r : Ref} {order : List Mod} {p : PathE} (h : p ∈ todoPaths b r order)
     (he : p.explicit = true) : p ∈ b.paths := by
   simp only [todoPaths, List.mem_reverse, List.mem_append] at h
   rcases h with h | h
   · exact mem_arrange ((sortPaths_perm_self _).mem_iff.1 h)
   · rw [mem_refPaths h] at he; cases he
+
+/-- every explicit element of the search list is one of the bank's registered paths -/
+theorem mem_searchList_explicit {b : Bank} {r : Ref} {p : PathE} (h : p ∈ searchList b r) (he : p.explicit = true) :
+    p ∈ b.paths := by
+  simp only [searchList, List.mem_reverse, List.mem_append] at h
+  rcases h with h | h
+  · exact (sortPaths_perm_self _).mem_iff.1 h
+  · rw [mem_refPaths h] at he; cases he
+
+theorem nextPath_some {b : Bank} {r : Ref} {searched : List Mod} {p : PathE} (h : nextPath b r searched = some p) :
+    p ∈ searchList b r ∧ p.mod ∉ searched := by
+  unfold nextPath at h
+  have h1 := List.mem_of_find?_eq_some h
+  have h2 := List.find?_some h
+  simp at h2
+  exact ⟨h1, h2⟩
+
+theorem nextPath_none {b : Bank} {r : Ref} {searched : List Mod} (h : nextPath b r searched = none) :
+    ∀ p ∈ searchList b r, p.mod ∈ searched := by
+  unfold nextPath at h
+  rw [List.find?_eq_none] at h
+  intro p hp
+  have := h p hp
+  simpa using this
 
 end ForML.Bank
 
